@@ -4,7 +4,7 @@
      lib/reports/weights    Renderer.Render / renderHeader / renderNode
      cmd/.../weights.go     execute with TextRenderer{Round: --digits}
    Model/Table.v is not changed: a cell of a weights table is a cell of Model/Table.v or a
-   percent cell ([wcell]), and the renderer below is TextRenderer.Render again, over [wcell]
+   percent cell ([pcell]), and the renderer below is TextRenderer.Render again, over [pcell]
    (same widths computation: zip_max, group_widths, widen of Model/Table.v).
 
    What the Go code does with a percent cell of value n (a float64):
@@ -31,20 +31,20 @@ Open Scope bool_scope.
 Open Scope Z_scope.
 
 (* ---------------------------------------------------------------- cells *)
-Inductive wcell :=
+Inductive pcell :=
 | WBase (c : cell)
 | WPct (n : f64).          (* Row.AddPercent(n) *)
 
-Record wtable := mkWTable { wt_columns : list Z; wt_rows : list (list wcell) }.
+Record wtable := mkWTable { wt_columns : list Z; wt_rows : list (list pcell) }.
 Definition wt_width (t : wtable) : nat := length (wt_columns t).
 
-Definition wis_sep (c : wcell) : bool := match c with WBase b => is_sep b | WPct _ => false end.
+Definition wis_sep (c : pcell) : bool := match c with WBase b => is_sep b | WPct _ => false end.
 
 (* the text configuration of the base cells: weights.go sets Round only *)
 Definition wcfg (round : Z) : text_cfg := mkTextCfg false round.
 
 (* TextRenderer.minLengthCell *)
-Definition wmin_length (round : Z) (c : wcell) : Z :=
+Definition wmin_length (round : Z) (c : pcell) : Z :=
   match c with
   | WBase b => min_length_cell (wcfg round) b
   | WPct n => rune_count (fmt_f 2 n ++ [37])
@@ -66,7 +66,7 @@ Definition pct_text (round : Z) (n : f64) (l : Z) : str :=
   (if round <? 0 then s_badprec else []) ++ pad_left (l - 1) (pct_num round n) ++ [37].
 
 (* TextRenderer.renderCell *)
-Definition wrender_cell (round : Z) (c : wcell) (l : Z) : str :=
+Definition wrender_cell (round : Z) (c : pcell) (l : Z) : str :=
   match c with
   | WBase b => render_cell (wcfg round) b l
   | WPct n =>
@@ -85,7 +85,7 @@ Definition w_final_widths (round : Z) (t : wtable) : list Z :=
   let ws := w_col_widths round t in
   widen ws 0 (group_widths (wt_columns t) ws []).
 
-Definition wcreate_sep (c1 c2 : wcell) : str :=
+Definition wcreate_sep (c1 c2 : pcell) : str :=
   match wis_sep c1, wis_sep c2 with
   | true, true => [45;43;45]
   | true, false => [45;43;32]
@@ -93,14 +93,14 @@ Definition wcreate_sep (c1 c2 : wcell) : str :=
   | false, false => [32;124;32]
   end.
 
-Fixpoint wrender_cells (round : Z) (cs : list wcell) (ws : list Z) : str :=
+Fixpoint wrender_cells (round : Z) (cs : list pcell) (ws : list Z) : str :=
   match cs, ws with
   | [c], w :: _ => wrender_cell round c w
   | c :: ((c2 :: _) as rest), w :: ws' => wrender_cell round c w ++ wcreate_sep c c2 ++ wrender_cells round rest ws'
   | _, _ => []
   end.
 
-Definition wrender_row (round : Z) (ws : list Z) (row : list wcell) : str :=
+Definition wrender_row (round : Z) (ws : list Z) (row : list pcell) : str :=
   match row with
   | [] => []
   | c0 :: _ =>
@@ -121,14 +121,14 @@ Definition wtable_of_table (t : table) : wtable := mkWTable (t_columns t) (map (
    the date, or a weight == 0) or the weight (AddPercent) *)
 Definition frow := (Z * str * list (option f64))%type.
 
-Definition wsep_row (n : nat) : list wcell := repeat (WBase CSep) n.
+Definition wsep_row (n : nat) : list pcell := repeat (WBase CSep) n.
 
 (* renderHeader *)
-Definition weights_header (dates : list Z) : list wcell :=
+Definition weights_header (dates : list Z) : list pcell :=
   WBase (CText s_Commodity ACenter 0) :: map (fun d => WBase (CText (format_date d) ACenter 0)) dates.
 
 (* one renderNode call without the recursion (the rows arrive flattened, as in Model/Weights.v) *)
-Definition weights_row (r : frow) : list wcell :=
+Definition weights_row (r : frow) : list pcell :=
   let '(ind, s, cells) := r in
   WBase (CText s ALeft ind) :: map (fun c => match c with Some n => WPct n | None => WBase CEmpty end) cells.
 
